@@ -29,7 +29,8 @@ RULE = (
     "58-72 character, non-identifier ('deepCoadd.calexp', 'u/someone/run 1') and non-ASCII ones.  Half of the engines "
     "of a round are additionally cloned (copy.copy, copy.deepcopy or a pickle round trip) after they have handed "
     "out some names; the clone is a different engine that takes part in the round like the others.  A fifth route "
-    "materializes without a name, transfers the result to another engine and materializes again without a name. "
+    "materializes without a name, transfers the result to another engine and materializes again without a name.  "
+    "Before every round the global `random` generator is re-seeded to the same value, as a host program may do. "
 )
 ASSUMPTIONS = [
     "schedules are explored only at the statement boundaries of get_relation_name (the only shared mutable state "
@@ -215,6 +216,10 @@ def run_shard(seed, wid, nworkers, tier):
             with _rec["lock"]:
                 _rec["names"].clear()
             nreq = rng.choice([150, 300])
+            # a host program (or its test framework) that re-seeds the global generator to a fixed
+            # value before each batch of work: names must not depend on it
+            random.seed(20240229)
+            c["global_reseeds"] = c.get("global_reseeds", 0) + 1
             engines, results, errors, alive = one_round(rng, nthreads, nreq)
             c["rounds"] = c.get("rounds", 0) + 1
             if alive:
